@@ -238,6 +238,28 @@ CLAIMS = {
         technique="Lean 4 proof (byte layout round trip, totality, determinant identity) + differential "
                   "correspondence and grammar recogniser",
         ref="DESIGN.md §6 C17"),
+    "C14": dict(
+        text="Lean 4 theorems over a model of the HTTP readers' decision logic (the requests library and the "
+             "server are a parameter `Reply`): every 4xx/5xx status and every transport failure is a "
+             "data-access error and a 2xx body is returned unchanged (plain reader); 404 on the existence probe "
+             "means absent, every other error status an error; the sharded reader hands on EXACTLY the "
+             "requested number of bytes of a non-error reply or raises; over a server honouring Range (RFC "
+             "7233 model `serveRange`) HTTP read_bytes equals the local read_bytes for every offset and length "
+             "whose bytes exist (zero length included - repaired defect F32) and is an error otherwise; legacy "
+             ".index/.data pairs read the same bytes as the single .shard file for every request not "
+             "straddling the header; dispatch picks the sharded reader iff the info declares sharding; the "
+             "chunk URL pattern name is regenerated from the source. Index walk and look-up are the theorems "
+             "of C04/C05 (shared code). Tie/oracle: a loopback static server emulating the documented "
+             "configuration with programmable persistent faults; plain datasets in all 4 layouts and "
+             "two-scale sharded datasets (raw/gzip, .shard and legacy pairs) fetched through "
+             "get_accessor_for_url and compared byte for byte with the local accessors and the files; "
+             "read_bytes compared with the model on inside/straddling/past-end ranges.",
+        note="Trusted: Lean kernel; standard axioms; hand-written decision model (tie = sampling over a real "
+             "socket); requests/urllib3 and the emulated server (RFC 7233 range semantics) are externals; "
+             "redirects, proxies and TLS are not exercised.",
+        technique="Lean 4 proof (decision logic over abstract replies, list slicing) + differential "
+                  "correspondence over a loopback HTTP server with fault injection",
+        ref="DESIGN.md §6 C14"),
     "C15": dict(
         text="Lean 4 theorems over the orientation tables REGENERATED from the source on every run: the list "
              "of accepted codes has 48 distinct entries and each designates a signed permutation of the axes "
